@@ -125,6 +125,8 @@ type FuncSpec struct {
 	Line      int
 	Decreases []Expr
 	NoVerify  string // reason: listed as not verified (contract assumed)
+	GhostVars []GhostVar        // function-level ghost variables (Init only)
+	GhostRes  map[string]string // ghost results: name -> "int" | "mapint" | "bool"
 }
 
 type PredDef struct {
@@ -493,6 +495,7 @@ var directiveKeywords = map[string]bool{
 	"pred": true, "ghost": true, "func": true, "requires": true, "ensures": true, "modifies": true,
 	"inline": true, "trusted": true, "loop": true, "invariant": true, "decreases": true, "lemma": true,
 	"panics-iff": true, "props": true, "ghostvar": true, "at": true, "vars": true, "induction": true, "noverify": true,
+	"assert": true, "ghostresult": true,
 }
 
 type rawDirective struct {
@@ -807,10 +810,31 @@ func parseSpecFile(pkg string, f *ast.File, lineOf func(ast.Node) int) (*SpecFil
 			} else if cur != nil {
 				cur.Decreases = es
 			}
+		case "ghostresult":
+			fs := strings.Fields(d.text)
+			if cur == nil || len(fs) != 2 {
+				return nil, fmt.Errorf("line %d: ghostresult NAME int|bool|mapint", d.line)
+			}
+			if cur.GhostRes == nil {
+				cur.GhostRes = map[string]string{}
+			}
+			cur.GhostRes[fs[0]] = fs[1]
 		case "ghostvar":
-			// name := init step expr
+			// loop level: name := init step expr ; function level: name := init
 			if curLoop == nil {
-				return nil, fmt.Errorf("line %d: ghostvar outside loop", d.line)
+				if cur == nil {
+					return nil, fmt.Errorf("line %d: ghostvar outside func", d.line)
+				}
+				i := strings.Index(d.text, ":=")
+				if i < 0 {
+					return nil, fmt.Errorf("line %d: bad ghostvar", d.line)
+				}
+				init, err := parseExprString(d.text[i+2:])
+				if err != nil {
+					return nil, fmt.Errorf("line %d: %v", d.line, err)
+				}
+				cur.GhostVars = append(cur.GhostVars, GhostVar{Name: strings.TrimSpace(d.text[:i]), Init: init})
+				continue
 			}
 			i := strings.Index(d.text, ":=")
 			j := strings.Index(d.text, " step ")
@@ -826,6 +850,31 @@ func parseSpecFile(pkg string, f *ast.File, lineOf func(ast.Node) int) (*SpecFil
 				return nil, fmt.Errorf("line %d: %v", d.line, err)
 			}
 			curLoop.GhostVars = append(curLoop.GhostVars, GhostVar{strings.TrimSpace(d.text[:i]), init, step})
+		case "assert":
+			// assert ANCHOR: [induction VAR ::] EXPR   — proved at the anchor (by strong induction on VAR >= 0 if given), then assumed
+			if cur == nil {
+				return nil, fmt.Errorf("line %d: assert outside func", d.line)
+			}
+			ci := strings.Index(d.text, ":")
+			if ci < 0 {
+				return nil, fmt.Errorf("line %d: bad assert", d.line)
+			}
+			g := GhostStmt{Anchor: strings.TrimSpace(d.text[:ci]), Text: d.text, Line: d.line, Kind: "assert"}
+			rest := strings.TrimSpace(d.text[ci+1:])
+			if strings.HasPrefix(rest, "induction ") {
+				k := strings.Index(rest, "::")
+				if k < 0 {
+					return nil, fmt.Errorf("line %d: induction without ::", d.line)
+				}
+				g.Field = strings.TrimSpace(rest[len("induction "):k])
+				rest = strings.TrimSpace(rest[k+2:])
+			}
+			e, err := parseExprString(rest)
+			if err != nil {
+				return nil, fmt.Errorf("line %d: %v", d.line, err)
+			}
+			g.V = e
+			cur.Ghost = append(cur.Ghost, g)
 		case "at":
 			// at ANCHOR: [if COND :] TARGET := EXPR
 			if cur == nil {
@@ -868,11 +917,15 @@ func parseSpecFile(pkg string, f *ast.File, lineOf func(ast.Node) int) (*SpecFil
 				if err != nil {
 					return nil, fmt.Errorf("line %d: %v", d.line, err)
 				}
-				fe, ok := te.(*EField)
-				if !ok {
-					return nil, fmt.Errorf("line %d: ghost target must be a field", d.line)
+				if id, isId := te.(*EIdent); isId {
+					g.Kind, g.Field = "var", id.Name
+				} else {
+					fe, ok := te.(*EField)
+					if !ok {
+						return nil, fmt.Errorf("line %d: ghost target must be a field or a ghost variable", d.line)
+					}
+					g.Kind, g.X, g.Field = "field", fe.X, fe.Name
 				}
-				g.Kind, g.X, g.Field = "field", fe.X, fe.Name
 			}
 			cur.Ghost = append(cur.Ghost, g)
 		}
